@@ -18,7 +18,8 @@ RULE = ("Hypothesis draws a closure scenario: 'maker' functions (nesting <= 3) d
         "the reference evaluator (environment model with shared mutable cells) on the debug and release workers; "
         "every 8th case also under collect-at-every-allocation. Non-trivial: the model saw a closure invoked after "
         "its declaring activation returned, or a variable read in an activation other than the one that last wrote "
-        "it; distinct by program text.")
+        "it; distinct by program text. "
+        "In one program in four up to two user declarations (variables, parameters, classes) are renamed to builtin class names the program text does not mention (Object, Error, List, ...: pbt/lang/shadow.py globalize): what the language does implicitly (the superclass of a class that names none, the class of a blank catch, literals) must not go through the user's scope.")
 ASSUMPTIONS = ["reference evaluator: each execution of let/fn/param/catch creates a fresh cell, the for item is one "
                "cell per loop, closures capture cells (pbt/lang/model.py)",
                "model step budget overruns are discarded (counted)"]
@@ -42,7 +43,10 @@ def strategy(hazards):
     # declaration to the name of a variable of an enclosing scope; programs of the core grammar join the closure
     # scenarios there because their nested blocks / loops / functions give shadowing more places to happen
     progs_ = st.one_of(gen.closure_program(cfg), gen.closure_program(cfg), gen.program(gen.Cfg(p_confuse=0, hazards=hazards)))
-    return st.tuples(progs_, st.integers(0, 7), st.lists(st.integers(0, 1000), min_size=0, max_size=6))
+    # fourth component: renames of user declarations to builtin class names the program does not mention
+    # (shadow.globalize; empty three times out of four)
+    return st.tuples(progs_, st.integers(0, 7), st.lists(st.integers(0, 1000), min_size=0, max_size=6),
+                     st.one_of(st.just([]), st.just([]), st.just([]), st.lists(st.integers(0, 1000), min_size=2, max_size=4)))
 
 
 def run_case(case, ctx):
@@ -51,6 +55,9 @@ def run_case(case, ctx):
     renames = 0
     if picks:
         prog, renames = shadow.shadowize(prog, picks)
+    if len(case) > 3 and case[3]:
+        prog, globalized = shadow.globalize(prog, case[3], printer.to_source(prog)[0])
+        renames += len(globalized)
     src, lines = printer.to_source(prog)
     res, why = run_model(prog, lines)
     if res is None:
